@@ -12,8 +12,8 @@ variable {ν : Type} [NumOps ν]
 
 theorem sim_logic_andor {ω : Addr → Option (SVal ν)} {d n : Nat} (ih : IH ω d n) (ln ty : Nat) (l r : Expr)
     (hty : ty = LogicAND ∨ ty = LogicOR) (hl : PureExpr l) (hr : PureExpr r) (s : VM ν) (σ : SState ν)
-    (henv : EnvRel ω d s σ) :
-    Sim d (Reads ω (n + 1 + d)) s σ (evalExpr (n+1) (.logic ln ty l r)) (evalE (n+1) (.logic ln ty l r)) := by
+    (henv : EnvRel ω d s σ) {k : Nat} (hk : 0 < k) :
+    Sim d (Reads ω k) s σ (evalExpr (n+1) (.logic ln ty l r)) (evalE (n+1) (.logic ln ty l r)) := by
   simp only [evalExpr, evalE]
   rcases hty with rfl | rfl <;>
   · simp only [LogicAND, LogicOR, Nat.reduceBEq, Bool.or_false, Bool.false_or, Bool.or_true, Bool.true_or, Bool.false_and,
@@ -40,8 +40,8 @@ theorem sim_logic_andor {ω : Addr → Option (SVal ν)} {d n : Nat} (ih : IH ω
 
 theorem sim_logic_eq {ω : Addr → Option (SVal ν)} {d n : Nat} (ih : IH ω d n) (ln ty : Nat) (l r : Expr)
     (hty : ty = LogicEQ ∨ ty = LogicXEQ ∨ ty = LogicNEQ ∨ ty = LogicXNEQ) (hl : PureExpr l) (hr : PureExpr r)
-    (s : VM ν) (σ : SState ν) (henv : EnvRel ω d s σ) :
-    Sim d (Reads ω (n + 1 + d)) s σ (evalExpr (n+1) (.logic ln ty l r)) (evalE (n+1) (.logic ln ty l r)) := by
+    (s : VM ν) (σ : SState ν) (henv : EnvRel ω d s σ) {k : Nat} (hk : 0 < k) :
+    Sim d (Reads ω k) s σ (evalExpr (n+1) (.logic ln ty l r)) (evalE (n+1) (.logic ln ty l r)) := by
   simp only [evalExpr, evalE]
   rcases hty with rfl | rfl | rfl | rfl <;>
   · simp only [LogicAND, LogicOR, LogicEQ, LogicXEQ, LogicNEQ, LogicXNEQ, Nat.reduceBEq, Bool.or_false, Bool.false_or,
@@ -59,8 +59,8 @@ theorem sim_logic_eq {ω : Addr → Option (SVal ν)} {d n : Nat} (ih : IH ω d 
 
 theorem sim_logic_order {ω : Addr → Option (SVal ν)} {d n : Nat} (ih : IH ω d n) (ln ty : Nat) (l r : Expr)
     (hty : ty = LogicGT ∨ ty = LogicGTE ∨ ty = LogicLT ∨ ty = LogicLTE) (hl : PureExpr l) (hr : PureExpr r)
-    (s : VM ν) (σ : SState ν) (henv : EnvRel ω d s σ) :
-    Sim d (Reads ω (n + 1 + d)) s σ (evalExpr (n+1) (.logic ln ty l r)) (evalE (n+1) (.logic ln ty l r)) := by
+    (s : VM ν) (σ : SState ν) (henv : EnvRel ω d s σ) {k : Nat} (hk : 0 < k) :
+    Sim d (Reads ω k) s σ (evalExpr (n+1) (.logic ln ty l r)) (evalE (n+1) (.logic ln ty l r)) := by
   simp only [evalExpr, evalE]
   rcases hty with rfl | rfl | rfl | rfl <;>
   · simp only [LogicAND, LogicOR, LogicEQ, LogicXEQ, LogicNEQ, LogicXNEQ, LogicGT, LogicGTE, LogicLT, LogicLTE,
